@@ -326,7 +326,7 @@ def call_xarray(it, tail, args, kwargs, env, node, chain):
                 for k, v in coords.items():
                     d.setdefault(k, _tuple_value(v))
             elif coords is not None:
-                d[Unknown("coords")] = to_term(coords)
+                d["__coords__"] = to_term(coords)
             return DatasetVal(d)
         it.dataset_wraps.append((it.loc(env, node), T.show(to_term(src), 80)))
         return op("dataset_of", to_term(src))
